@@ -61,3 +61,106 @@ pub fn selftest_pass() {
     vcover!(x == 3);
     assert!(x * 2 < 20);
 }
+
+// ---------------------------------------------------------------- engine M's chrono models, validated against the real chrono
+fn model_is_leap(y: i64) -> bool { y % 4 == 0 && (y % 100 != 0 || y % 400 == 0) }
+
+fn model_valid_ymd(y: i64, m: i64, d: i64) -> bool {
+    let dim = if m == 2 { if model_is_leap(y) { 29 } else { 28 } } else if m == 4 || m == 6 || m == 9 || m == 11 { 30 } else { 31 };
+    y >= -262143 && y <= 262142 && m >= 1 && m <= 12 && d >= 1 && d <= dim
+}
+
+/// day number with 0001-01-01 = 0 (the formula of lib/mirsmt/models.py days_from_civil, floor division)
+fn model_days_from_civil(y: i64, m: i64, d: i64) -> i64 {
+    let y2 = if m <= 2 { y - 1 } else { y };
+    let era = y2.div_euclid(400);
+    let yoe = y2 - era * 400;
+    let mp = if m > 2 { m - 3 } else { m + 9 };
+    let doy = (153 * mp + 2).div_euclid(5) + d - 1;
+    let doe = yoe * 365 + yoe.div_euclid(4) - yoe.div_euclid(100) + doy;
+    era * 146097 + doe - 719468 + 719162
+}
+
+/// from_ymd_opt accepts exactly the model's valid dates and numbers their days as the model does
+pub fn chrono_model_ymd(lo: i32, hi: i32) {
+    let y: i32 = vany(); let m: u32 = vany(); let d: u32 = vany();
+    vassume(y >= lo && y <= hi && m <= 13 && d <= 32);
+    let real = NaiveDate::from_ymd_opt(y, m, d);
+    let valid = model_valid_ymd(y as i64, m as i64, d as i64);
+    assert!(real.is_some() == valid);
+    if let Some(date) = real {
+        assert!(date.num_days_from_ce() as i64 - 1 == model_days_from_civil(y as i64, m as i64, d as i64));
+        vcover!(m == 2 && d == 29);
+        vcover!(m == 12 && d == 31);
+    }
+}
+
+/// NaiveDateTime::timestamp / and_hms / num_seconds_from_midnight on (day number, second of day): for every
+/// date-time of years 1..9999 the timestamp is (day number - 719162) * 86400 + second of day. (from_timestamp is
+/// the documented inverse of timestamp; a direct harness on it does not finish: 64-bit division by 86400.)
+pub fn chrono_model_timestamp() {
+    use chrono::{NaiveDateTime, NaiveTime, Timelike};
+    let date = any_date();
+    let h: u32 = vany(); let mi: u32 = vany(); let se: u32 = vany();
+    vassume(h < 24 && mi < 60 && se < 60);
+    let dt = date.and_hms_opt(h, mi, se).unwrap();
+    let sod = h * 3600 + mi * 60 + se;
+    assert!(dt.num_seconds_from_midnight() == sod);
+    assert!(dt.timestamp() == (date.num_days_from_ce() as i64 - 1 - 719162) * 86400 + sod as i64);
+    vcover!(date.year() < 1970 && sod == 86399);
+    vcover!(date.year() > 2038);
+}
+
+/// NaiveDateTime +- whole seconds is addition on (day number * 86400 + second of day); |d| <= 2 days
+pub fn chrono_model_datetime_add(ylo: i32, yhi: i32, dmax: i64) {
+    use chrono::{NaiveDateTime, NaiveTime, Timelike};
+    let date = any_date();
+    let sod: u32 = vany();
+    vassume(sod < 86400);
+    let d: i64 = vany();
+    vassume(d >= -dmax && d <= dmax);
+    vassume(date.year() > ylo && date.year() < yhi);
+    let dt = NaiveDateTime::new(date, NaiveTime::from_num_seconds_from_midnight_opt(sod, 0).unwrap());
+    let r = dt + Duration::seconds(d);
+    let total = (date.num_days_from_ce() as i64 - 1) * 86400 + sod as i64 + d;
+    assert!((r.date().num_days_from_ce() as i64 - 1) * 86400 + r.num_seconds_from_midnight() as i64 == total);
+    vcover!(d < 0 && r.date() != date);
+}
+
+/// TimeDelta constructors: value n * unit seconds
+pub fn chrono_model_timedelta() {
+    let n: i64 = vany();
+    vassume(n >= -1_000_000_000 && n <= 1_000_000_000);
+    assert!(Duration::seconds(n).num_seconds() == n);
+    assert!(Duration::minutes(n).num_seconds() == n * 60);
+    assert!(Duration::hours(n).num_seconds() == n * 3600);
+    assert!(Duration::days(n).num_seconds() == n * 86400);
+    assert!(Duration::weeks(n).num_seconds() == n * 604800);
+    assert!((Duration::seconds(n) + Duration::seconds(17)).num_seconds() == n + 17);
+    vcover!(n < 0);
+}
+
+/// date + N months / years as duration_parse produces them (365 d per year, 30 d per month), inside the region where
+/// the landing month is not a multiple of twelve away from month 0 and the day exists in every month (day <= 28):
+/// the day of the month is kept and the month index 12*year+month moves by exactly 12*years+months
+pub fn date_add_months(years_max: i64) {
+    let cfg = blank_config();
+    let date = any_date();
+    let years: i64 = vany();
+    let months: i64 = vany();
+    vassume(years >= 0 && years <= years_max && months >= 0 && months <= 11 && years + months > 0);
+    vassume(date.day() <= 28);
+    vassume((date.month() as i64 + months) % 12 != 0);
+    vassume(date.year() as i64 + years + 1 <= 9999);
+    let left = DateItem(date, tz0());
+    let right = DurationItem(Duration::days(365 * years + 30 * months));
+    let r = left.calculate(&cfg, true, &right, OperationType::Add);
+    assert!(r.is_some());
+    let got = date_of(r.as_ref().unwrap());
+    assert!(got.day() == date.day());
+    let idx0 = 12 * date.year() as i64 + date.month() as i64;
+    let idx1 = 12 * got.year() as i64 + got.month() as i64;
+    assert!(idx1 == idx0 + 12 * years + months);
+    vcover!(years > 0 && months > 0 && got.year() as i64 == date.year() as i64 + years + 1);
+    core::mem::forget(r); core::mem::forget(cfg);
+}
